@@ -57,12 +57,17 @@ def bitCoords (c : Consts) (bits : W) : R (Nat × Nat) :=
 /-- the zero `tak.Move{}` -/
 def zeroMove : Move := { x := 0, y := 0, type := 0, slides := 0 }
 
-/-- `placeWinMove(c, p)`: a flat on the lowest square `findPlaceWins` reports, else the zero move -/
-def placeWinMove (c : Consts) (p : Pos) : R Move :=
+/-- the word `placeWinMove` computes: `findPlaceWins` on the mover's road squares (flats and capstones), the
+empty squares and the mover's analysed groups -/
+def placeWinsMask (c : Consts) (p : Pos) : W :=
   let myroad := if p.toMove == .white then p.white &&& ~~~p.standing else p.black &&& ~~~p.standing
   let gs := if p.toMove == .white then p.wgroups else p.bgroups
   let empty := c.Mask &&& ~~~(p.white ||| p.black)
-  let mask := findPlaceWins c myroad empty gs
+  findPlaceWins c myroad empty gs
+
+/-- `placeWinMove(c, p)`: a flat on the lowest square `findPlaceWins` reports, else the zero move -/
+def placeWinMove (c : Consts) (p : Pos) : R Move :=
+  let mask := placeWinsMask c p
   if mask != 0#64 then
     let bit := mask ^^^ (mask &&& (mask - 1#64))
     match bitCoords c bit with
